@@ -925,16 +925,18 @@ func parseNumberLiteral(literal string) (value interface{}, err error) {
 			literal[0] == '0' && (literal[1] == 'X' || literal[1] == 'x') &&
 			literal[len(literal)-1] != 'n' {
 			// Could just be a very large number (e.g. 0x8000000000000000)
-			var value float64
 			literal = literal[2:]
 			for _, chr := range literal {
-				digit := digitValue(chr)
-				if digit >= 16 {
+				if digitValue(chr) >= 16 {
 					goto error
 				}
-				value = value*16 + float64(digit)
 			}
-			return value, nil
+			// not accumulated in a float64, which would round at every step
+			if n, ok := new(big.Int).SetString(literal, 16); ok {
+				value, _ := new(big.Float).SetInt(n).Float64()
+				return value, nil
+			}
+			goto error
 		}
 	}
 
